@@ -45,7 +45,7 @@ Definition nocoll_b (h : handle) : bool := match h with HCollector _ => false | 
 Definition soon_ok (h : handle) : bool := notexp_b h && nocoll_b h.
 (* the part of the ghost history the conservation invariant reads: what was queued and what was handed over *)
 Definition qlog (l : list (N * gev)) : list (N * gev) :=
-  filter (fun p => match snd p with GSend _ _ _ _ => false | _ => true end) l.
+  filter (fun p => match snd p with GQueue _ _ | GFlush _ _ => true | _ => false end) l.
 
 (* the session-id part of the ghost history, oldest first: destination and the (flag, id) it was given *)
 Fixpoint slog (l : list (N * gev)) : list (dest * (bool * N)) :=
@@ -85,6 +85,10 @@ Definition snlog (o : list (N * event)) : list (N * event) :=
 Definition plain_b (e : event) : bool :=
   match e with ESent _ _ | ESubscribed _ _ _ _ | EUnsubscribed _ _ _ => false | _ => true end.
 
+(* the TimedStore part of the ghost history *)
+Definition tlog (l : list (N * gev)) : list (N * gev) :=
+  filter (fun p => match snd p with GRefresh _ _ _ _ | GExpire _ _ _ => true | _ => false end) l.
+
 (* two worlds that agree on everything the invariants read; with b = true also on the server-listener notifications
    (the two store callbacks that notify a server listener are steps of the weaker kind, b = false) *)
 Record sameb (b : bool) (w w' : world) : Prop := mkSame {
@@ -99,6 +103,7 @@ Record sameb (b : bool) (w w' : world) : Prop := mkSame {
   sm_collectors : collectors w' = collectors w;
   sm_queues : queues w' = queues w;
   sm_qlog : qlog (glog w') = qlog (glog w);
+  sm_tlog : tlog (glog w') = tlog (glog w);
   sm_sess : exists l, slog (glog w') = slog (glog w) ++ l /\ osteps (outgoing (sess w)) l = Some (outgoing (sess w'));
   sm_wire : exists m, wire (out w') = wire (out w) ++ m /\ gwire (glog w') = gwire (glog w) ++ m;
   sm_snlog : b = true -> snlog (out w') = snlog (out w);
@@ -119,6 +124,7 @@ Arguments sm_cfg {b} w w' _.
 Arguments sm_collectors {b} w w' _.
 Arguments sm_queues {b} w w' _.
 Arguments sm_qlog {b} w w' _.
+Arguments sm_tlog {b} w w' _.
 Arguments sm_sess {b} w w' _.
 Arguments sm_wire {b} w w' _.
 Arguments sm_snlog {b} w w' _.
@@ -133,11 +139,11 @@ Qed.
 Lemma same_refl {b} w : sameb b w w.
 Proof. constructor; try reflexivity; exists []; rewrite ?app_nil_r; split; first [reflexivity|constructor]. Qed.
 Lemma same_weak {b} w w' : sameb b w w' -> sameb false w w'.
-Proof. intros [A1 A2 A3 A4 A5 A6 A7 A8 A9 A10 A11 Ac Ad Ae Af Ag Aw _ A12]. constructor; try assumption. discriminate. Qed.
+Proof. intros [A1 A2 A3 A4 A5 A6 A7 A8 A9 A10 A11 Ac Ad Ae Af At Ag Aw _ A12]. constructor; try assumption. discriminate. Qed.
 Lemma same_trans {b} x y z : sameb b x y -> sameb b y z -> sameb b x z.
 Proof.
-  intros [A1 A2 A3 A4 A5 A6 A7 A8 A9 A10 A11 Ac Ad Ae Af (m1 & As1 & As2) (n1 & Aw1 & Aw2) An (l1 & A12 & A13)]
-         [B1 B2 B3 B4 B5 B6 B7 B8 B9 B10 B11 Bc Bd Be Bf (m2 & Bs1 & Bs2) (n2 & Bw1 & Bw2) Bn (l2 & B12 & B13)].
+  intros [A1 A2 A3 A4 A5 A6 A7 A8 A9 A10 A11 Ac Ad Ae Af At (m1 & As1 & As2) (n1 & Aw1 & Aw2) An (l1 & A12 & A13)]
+         [B1 B2 B3 B4 B5 B6 B7 B8 B9 B10 B11 Bc Bd Be Bf Bt (m2 & Bs1 & Bs2) (n2 & Bw1 & Bw2) Bn (l2 & B12 & B13)].
   constructor; try congruence; try (intros; rewrite ?B5, ?B6, ?B7, ?B9; auto; fail).
   - exists (m1 ++ m2). rewrite Bs1, As1, app_assoc. split; [reflexivity|]. rewrite osteps_app, As2. exact Bs2.
   - exists (n1 ++ n2). rewrite Bw1, Aw1, Bw2, Aw2, !app_assoc. split; reflexivity.
@@ -149,7 +155,7 @@ Proof. intros Hs. unfold tided, tmr. rewrite (sm_tmr _ _ Hs), (sm_rdy _ _ Hs). r
 
 Lemma same_G {b} X w w' : sameb b w w' -> GP X w -> GP X w'.
 Proof.
-  intros Hs [H1 H2 H3 H4 H5 H6 H7 H8 H9]. pose proof (same_tided _ _ Hs) as Ht. destruct Hs as [A1 A2 A3 A4 A5 A6 A7 A8 A9 A10 A11 Ac Ad Ae Af Ag Aw An A12].
+  intros Hs [H1 H2 H3 H4 H5 H6 H7 H8 H9]. pose proof (same_tided _ _ Hs) as Ht. destruct Hs as [A1 A2 A3 A4 A5 A6 A7 A8 A9 A10 A11 Ac Ad Ae Af At Ag Aw An A12].
   constructor; rewrite ?Ht, ?A3, ?A4; try assumption.
   - intros st a k tid. rewrite A5. apply H3.
   - intros st a. rewrite A5. apply H4.
@@ -553,7 +559,7 @@ Lemma keeps_store_expired st a k : keeps (store_expired st a k).
 Proof.
   intros X w Hg. unfold store_expired. rewrite inner_touch.
   destruct (aget key_eqb k (inner a (get_store st w))) as [old|] eqn:E.
-  - eapply same_G; [apply n_store_callback|]. rewrite <- (inner_touch a a (get_store st w)). apply keeps_remove. exact Hg.
+  - apply GP_ghost. eapply same_G; [apply n_store_callback|]. rewrite <- (inner_touch a a (get_store st w)). apply keeps_remove. exact Hg.
   - apply keeps_put_store; [exact Hg| |].
     + intros a'. rewrite inner_touch. apply (g_keys _ _ Hg).
     + intros a' k' tid. rewrite inner_touch. apply (g_store _ _ Hg).
@@ -614,9 +620,10 @@ Qed.
 
 (* refresh: the bool is false when the listener rejected a new entry (nothing is recorded then) *)
 Definition refresh_tail (st : store_id) (ttl : N) (a : addr) (k : key) (w1 : world) : world * bool :=
+  let w1g := ghost (GRefresh st a k ttl) w1 in
   let '(tid, w2) :=
-    if ttl =? TTL_FOREVER then (None, w1)
-    else let '(t, w') := call_later (ttl * usec_per_sec) (HExpired st a k) w1 in (Some t, w') in
+    if ttl =? TTL_FOREVER then (None, w1g)
+    else let '(t, w') := call_later (ttl * usec_per_sec) (HExpired st a k) w1g in (Some t, w') in
   let s2 := touch a (get_store st w2) in
   (put_store st (aset N.eqb a (adel key_eqb k (inner a s2) ++ [(k, tid)]) s2) w2, true).
 
@@ -642,7 +649,10 @@ Qed.
 
 Lemma keeps_refresh_tail st ttl a k : keeps (fun w => fst (refresh_tail st ttl a k w)).
 Proof.
-  intros X w1 Hg1. unfold refresh_tail. destruct (ttl =? TTL_FOREVER).
+  intros X w0 Hg0. unfold refresh_tail. cbv zeta.
+  assert (Hg1 : GP X (ghost (GRefresh st a k ttl) w0)) by (apply GP_ghost; exact Hg0).
+  revert Hg1. generalize (ghost (GRefresh st a k ttl) w0). clear w0 Hg0. intros w1 Hg1.
+  destruct (ttl =? TTL_FOREVER).
   - cbn [fst]. apply keeps_put_store; [exact Hg1| |].
     + intros a'. rewrite inner_aset, !inner_touch. destruct (a' =? a); [|apply (g_keys _ _ Hg1)].
       apply nodupE_snoc; [apply nodupE_adel, (g_keys _ _ Hg1)|]. apply adel_no_equiv. apply (g_keys _ _ Hg1).
@@ -1219,7 +1229,7 @@ Lemma expired_removes X st a k w : GP X w -> forall p, In p (inner a (get_store 
 Proof.
   intros Hg p. unfold store_expired. rewrite inner_touch.
   destruct (aget key_eqb k (inner a (get_store st w))) as [old|] eqn:E.
-  - rewrite (sm_store _ _ (n_store_callback st k a _)).
+  - change (get_store st (ghost (GExpire st a k) ?x)) with (get_store st x). rewrite (sm_store _ _ (n_store_callback st k a _)).
     destruct (has_store st w) eqn:Hh.
     + rewrite get_put_same by exact Hh. rewrite inner_aset, N.eqb_refl, ?inner_touch. apply adel_no_equiv. apply (g_keys _ _ Hg).
     + rewrite get_put_missing by exact Hh. intros Hp. exfalso.
